@@ -375,6 +375,23 @@ class HTMLUnicodeInputStream(object):
                 assert self.chunk[self.chunkOffset] == char
 
 
+class DecodingReader(object):
+    """Text reader over a byte stream. Unlike a codecs.StreamReader it tells
+    the decoder when the input has ended, so an incomplete sequence at the
+    very end is replaced rather than silently dropped"""
+
+    def __init__(self, stream, codec_info, errors):
+        self.stream = stream
+        self.decoder = codec_info.incrementaldecoder(errors)
+
+    def read(self, size=-1):
+        while True:
+            data = self.stream.read(size)
+            text = self.decoder.decode(data, not data)
+            if text or not data:
+                return text
+
+
 class HTMLBinaryInputStream(HTMLUnicodeInputStream):
     """Provides a unicode stream of characters to the HTMLTokenizer.
 
@@ -426,7 +443,7 @@ class HTMLBinaryInputStream(HTMLUnicodeInputStream):
         self.reset()
 
     def reset(self):
-        self.dataStream = self.charEncoding[0].codec_info.streamreader(self.rawStream, 'replace')
+        self.dataStream = DecodingReader(self.rawStream, self.charEncoding[0].codec_info, 'replace')
         HTMLUnicodeInputStream.reset(self)
 
     def openStream(self, source):
